@@ -704,6 +704,11 @@ finished:
 		r.events = append(r.events, "ERR,"+e)
 	}
 	cur = nil
+	// the trace ends here: what the goroutines of an aborted scenario do once they are released below runs
+	// unscheduled and is not part of it
+	r.mu.Lock()
+	evs := append([]string(nil), r.events...)
+	r.mu.Unlock()
 	// release anything still parked so that goroutines of this scenario can end
 	r.mu.Lock()
 	r.aborted = true
@@ -726,9 +731,6 @@ finished:
 			old.StopNoWait() // thread-safe; whatever is blocked stays blocked (no CPU)
 		}()
 	}
-	r.mu.Lock()
-	evs := append([]string(nil), r.events...)
-	r.mu.Unlock()
 	return "EL " + strings.Join(evs, " ")
 }
 
